@@ -638,7 +638,7 @@ def enum_short(shard, nshards, tier):
 
 
 def arms(tier):
-    return [Arm("histories", eval_history, histories, quick=8000, thorough=200000),
+    return [Arm("histories", eval_history, histories, quick=12000, thorough=200000),
             Arm("short", eval_history, enum=enum_short, exhaustive=True)]
 
 
